@@ -189,6 +189,7 @@ func resetCaches() {
 	corrOf = map[*FG][]ssa.Value{}
 	corrDone = map[*FG]bool{}
 	fnAlias = map[*ssa.Function]string{}
+	fieldAliasCache = map[*types.Struct]map[int]string{}
 }
 
 // sweepInProcess analyses every variant directory under vroot (shard i of n) with the given properties and
